@@ -40,7 +40,7 @@ static inline double vf_now(void)
  * fails the same way on every run (and on the replay) instead of depending on what ran before. */
 static __attribute__((noinline)) void vf_stack_paint(void)
 {
-    volatile uint8_t pad[6144];
+    volatile uint8_t pad[2560];     /* the library's deepest call path uses about 0.8 KB (C17); printf-based paths go deeper in libc, which initialises its own frames */
     memset((void *) pad, 0xEE, sizeof pad);
     __asm__ volatile("" : : "r"(pad) : "memory");
 }
